@@ -268,7 +268,7 @@ Proof.
   - destruct (has_orule G n) eqn:Ho.
     + destruct (has_orule_first G n Ho) as (r & Er & _).
       eapply cl_call; [unfold Ev; apply vm_env_at; exact Er|]. apply IH; auto.
-      intros M. specialize (Hn M). Show. rewrite Ho in Hn. apply andb_prop in Hn. destruct Hn as [_ Hn]. cbn in Hn.
+      intros M. specialize (Hn M). apply andb_prop in Hn. destruct Hn as [_ Hn]. cbn in Hn.
       destruct (in_C_clean n Hn) as (r' & Er' & Fc). congruence.
     + destruct (ur n); [apply cl_prim; intros _; reflexivity|].
       apply cl_call_none. unfold Ev, vm_env. replace (nth_error G (S (List.length G))) with (@None orule); [reflexivity|].
